@@ -21,6 +21,7 @@ type dbm struct {
 	nodes   map[string]bool
 	busy    map[types.Object]bool
 	busySum map[string]bool
+	sums    bool // relate a sum of two variable terms to its operands (set by the bounds discharger: costly)
 }
 
 const zeroNode = "0"
@@ -295,7 +296,7 @@ func (d *dbm) noteTerm(e ast.Expr) {
 		case token.ADD:
 			// a sum of two variable terms is a node of its own: it is at least each operand when the other is
 			// non-negative
-			if _, isC := constInt(d.info, b.Y); !isC {
+			if _, isC := constInt(d.info, b.Y); !isC && d.sums {
 				if _, isC2 := constInt(d.info, b.X); !isC2 && !d.busySum[t] {
 					if d.busySum == nil {
 						d.busySum = map[string]bool{}
